@@ -15,6 +15,11 @@ Theorem C08_init_among_locations : forall cs : list cb, InitInv (build cs b0).
 Proof. exact init_all. Qed.
 Print Assumptions C08_init_among_locations.
 
+(* ... and the kind test of proc_location_init is what carries it: with the test proc_edge_begin uses for edge ends (location or branchpoint) the statement fails. *)
+Theorem C08_init_kind_test_is_needed : exists cs : list cb, ~ InitInv (fold_left step_lax cs b0) /\ InitInv (build cs b0).
+Proof. eexists. split; [exact (proj1 init_of_a_branchpoint_breaks_the_invariant) | exact (proj1 (proj2 init_of_a_branchpoint_breaks_the_invariant))]. Qed.
+Print Assumptions C08_init_kind_test_is_needed.
+
 (* Instances: after any sequence of template declarations, (partial) instantiations — including those rejected for a wrong
    number of arguments or an unknown template — and system-line entries, every instance and every process lists its
    unbound parameters first, has a type of that arity, and maps exactly its other parameters, each once. *)
